@@ -55,6 +55,8 @@ type runState struct {
 	prevClass string // fresh|append|rollback|noop: what the previous operation was
 	panicked  bool
 	plan      *Plan
+	plans     []Plan // torn mode: the fault sequence of the running append
+	lastTorn  string // torn mode: shape of the latest double-fault append of this history ("" = none yet)
 }
 
 func (r *Runner) begin(h *History, mode string) (*runState, error) {
@@ -144,11 +146,12 @@ func (s *runState) stepShape(op *Op) string {
 // ---- witnesses
 
 type opSummary struct {
-	I    int    `json:"i"`
-	Kind string `json:"kind"`
-	Size int    `json:"size,omitempty"`
-	N    uint32 `json:"n,omitempty"`
-	Note string `json:"note,omitempty"`
+	I    int       `json:"i"`
+	Kind string    `json:"kind"`
+	Size int       `json:"size,omitempty"`
+	N    uint32    `json:"n,omitempty"`
+	Note string    `json:"note,omitempty"`
+	Torn *TornSpec `json:"double_fault,omitempty"`
 }
 
 func (s *runState) witness(extra map[string]any) map[string]any {
@@ -159,7 +162,7 @@ func (s *runState) witness(extra map[string]any) map[string]any {
 	var ops []opSummary
 	for i := from; i <= s.step && i < len(s.h.Ops); i++ {
 		op := &s.h.Ops[i]
-		ops = append(ops, opSummary{I: i, Kind: op.Kind, Size: len(op.Blocks) + len(op.Filters), N: op.N, Note: op.Note})
+		ops = append(ops, opSummary{I: i, Kind: op.Kind, Size: len(op.Blocks) + len(op.Filters), N: op.N, Note: op.Note, Torn: op.Torn})
 	}
 	w := map[string]any{
 		"mode": s.mode, "history_index": s.h.Index, "history_seed": s.h.Seed, "class": s.h.Class,
@@ -170,6 +173,9 @@ func (s *runState) witness(extra map[string]any) map[string]any {
 	}
 	if s.plan != nil {
 		w["fault"] = *s.plan
+	}
+	if s.plans != nil {
+		w["fault_sequence"] = s.plans
 	}
 	for k, v := range extra {
 		w[k] = v
@@ -342,6 +348,9 @@ func (s *runState) clean(op *Op, prof *Profile) bool {
 		sigShape += "(to-genesis)"
 	}
 	sigShape += "|prev=" + s.prevClass
+	if s.lastTorn != "" {
+		sigShape += "|earlier:" + s.lastTorn
+	}
 	if rule, detail := s.checkResult(op, stamp, err); rule != "" {
 		s.violate(rule, sigShape, detail, nil)
 		return false
@@ -389,6 +398,9 @@ func (s *runState) clean(op *Op, prof *Profile) bool {
 }
 
 func (s *runState) reopen(ctx string) bool {
+	if s.lastTorn != "" {
+		ctx += "|earlier:" + s.lastTorn
+	}
 	if err := s.st.Close(); err != nil {
 		s.r.Sink.Inconclusive("harness: close failed: " + err.Error())
 		return false
@@ -456,17 +468,17 @@ func plansFor(op *Op, counts map[string]int) []Plan {
 				if empty && kind != FWrite0 {
 					continue // a zero-length write cannot be short
 				}
-				out = append(out, Plan{t, kind, k})
+				out = append(out, Plan{Target: t, Kind: kind, Index: k})
 			}
 		}
 		for _, kind := range []string{FSeek, FStat, FTruncate, FSync} {
 			for k := 0; k < counts[t+"/"+kind]; k++ {
-				out = append(out, Plan{t, kind, k})
+				out = append(out, Plan{Target: t, Kind: kind, Index: k})
 			}
 		}
 	}
 	for k := 0; k < counts[TDB+"/update"]; k++ {
-		out = append(out, Plan{TDB, FDBNoRun, k}, Plan{TDB, FDBRollback, k})
+		out = append(out, Plan{Target: TDB, Kind: FDBNoRun, Index: k}, Plan{Target: TDB, Kind: FDBRollback, Index: k})
 	}
 	return out
 }
